@@ -1,4 +1,4 @@
-import IncrVerif.Proofs.EffH17
+import IncrVerif.Proofs.EffH18
 /-!
 # C08 (and C01/C02) for whole histories of programs whose node functions WRITE variables
 
@@ -12,10 +12,10 @@ FRAGMENT.  `EffH.EAction env a` = `Quiet.StaticAction (EffH.noEff env) a`: the s
 of `map` nodes may have effects, restricted by `EffH.WOnly env`: every effect in every `env.fnEff f vals` is one of
 `setVar`/`modifyVar`/`updateVar`/`replaceVar`/`replaceWithVar` (any variable index; a write to a variable that does
 not exist makes the model panic, so such a run is not "returning").  NOT in the fragment: `dropVar` (every handle is
-alive: `CellsOK`), the other effects (`readObs`, `disallow`, `stabilise`, `panic`, expert effects), subscriptions
-(so: no handlers — see "NOT PROVED"), everything `Props/C01History.lean` excludes.  Nothing is assumed about `cfg.debug`.
+alive: `CellsOK`), the other effects (`readObs`, `disallow`, `stabilise`, `panic`, expert effects), everything
+`Props/C01History.lean` excludes; subscriptions (handlers) are the second stage, V3 below.  Nothing is assumed about `cfg.debug`.
 
-DEFINITIONS (`Proofs/EffH1.lean` … `EffH10.lean`).
+DEFINITIONS (`Proofs/EffH1.lean` … `EffH10.lean` for V1/V2, `EffH11.lean` … `EffH18.lean` for V3; namespace `IncrVerif.Proofs.EffH`).
 * `noEff env`: `env` with `fnEff := fun _ _ => []` and `handler := fun _ _ => []`.  Every engine function except the
   `map` case of `recomputeOne` and the handler loop of `stabiliseEnd` is the same program under `env` and `noEff env`
   (`stepAction_noEff`, `addNewObservers_noEff`, `mcv_noEff`, …), so all invariants are stated for `noEff env`
@@ -84,14 +84,28 @@ PROVED (for the model; partial correctness: every statement assumes that the cal
   `stable_reads_handlers`, `loop_fixpoint_handlers`.  Non-vacuity: `exHistH` (a function writes `v1 := 4`, the handler
   then does `v1 += 1` and `replace(v1, 2)`, which returns `5`), also checked against the Rust harness.
 
+  C09 WITH EFFECTS (`Proofs/EffH18.lean`, ports of `Subs11`/`Subs15`): `delivers_with_effects` (S2: the notifications of a
+  `stabilise` are exactly the `SubsH.expected` ones, every token at most once), `expected_live_with_effects`,
+  `expected_dead_with_effects` (a live handler is told `Initialised v` once, then `Changed v` iff the stored value of
+  its node changed; `v` is what its observer reads afterwards — computed from the PRE-STABILISE variables; handler and
+  function writes of the same `stabilise` never show in what is delivered in that `stabilise`),
+  `history_notifications_with_effects` (S3: `tokLog t s.log = specT env t acts …` for every token along every history of
+  the fragment), `history_shape_with_effects`.
+
 ASSUMED / NOT PROVED.  Partial correctness only (no bound on the number of iterations of the `is_stable` loop: a
 function that writes a variable it depends on never stabilises — that is the engine's behaviour).  No total
-correctness for the fragment (that the calls return).  For V3 the per-token whole-history specification of
-`Props/C09History.lean` (`history_notifications`: `tokLog t s.log = specT …`) and the reading `expected` of the delivered
-notifications are NOT re-proved with handler effects; what is proved is that each `stabilise` logs exactly
-`SubsH.endNotifs env t3` (the same function of the drained state as without effects), together with the facts about `t3`
-that `SubsH.MidState` lists (`midObs`, `midHinv`, `midVal`, `valchg`, `log`).  Handlers with other effects (`disallow`,
-nested `stabilise`, `readObs`, `dropVar`) are outside the fragment.
+correctness for the fragment (that the calls return).  Handlers with other effects (`disallow`, nested `stabilise`,
+`readObs`, `dropVar`) are outside the fragment.
+
+FOUND (true of the model; the implementation differs in ORDER only).  The handlers' writes are applied in the order in
+which the handlers run.  The model runs them in list order (`endEffs`: queued nodes, their observers, their handlers,
+each in insertion order); the implementation iterates over `HashMap`s with a per-process random state, so when several
+handlers of one `stabilise` write the SAME variable with non-commuting writes, the final contents of the variable depend
+on the run: for `hdl h0 setvar v1 1`, `hdl h1 setvar v1 2`, `hdl h2 setvar v1 3`, `fn f0 lin 7 0 1`, `var 1`, `var 5`,
+`map f0 n0`, `observe n2`, `subscribe o0 h0`, `subscribe o0 h1`, `subscribe o0 h2`, `stabilise`, `get v1` the model answers
+`3`, the Rust harness `1`, `2` or `3` depending on the run (six runs: 1, 2, 2, 1, 3, 3).  Everything else (which
+notifications, their values, function writes before handler writes, node values from the pre-stabilise variables,
+`is_stable`) is order-independent.  `exHistH` has a single handler.
 -/
 namespace IncrVerif.Props.C08History
 open IncrVerif.Engine IncrVerif.Driver IncrVerif.Proofs IncrVerif.Proofs.Step IncrVerif.Proofs.Sched
@@ -397,6 +411,51 @@ theorem loop_fixpoint_handlers {env : Env} (hw : WOnly env) (hH : WHandlers env)
         ∃ v, s.tryGetValue env o = .ok v ∧ eval env s j ob.node = some v :=
   loop_fixpoint_w hw hH ha h hs
 
+/-! ## C09 with effects: what the handlers are told -/
+
+/-- **S2 with effects**: the notifications in the log grow by `del` = the expected notification (`SubsH.expected`) of
+every handler record registered before the call, every token at most once -/
+theorem delivers_with_effects {env : Env} (hw : WOnly env) (hH : WHandlers env) {fuel : Nat} {s s' : State}
+    (U : UInvE env s) (h : (stabilise env fuel).run.run s = (.ok (), s')) :
+    ∃ del : List Event, notifs s'.log = del.reverse ++ notifs s.log ∧
+      (∀ e, e ∈ del → ∃ t u, e = .notif t u) ∧
+      (∀ t u, Event.notif t u ∈ del ↔
+        ∃ (o : Nat) (ob : ObsRec) (h : HandlerRec), s.observers[o]? = some ob ∧ h ∈ ob.handlers ∧
+          h.token = t ∧ SubsH.expected s s' o h = some u) ∧
+      (del.filterMap SubsH.notifTok).Nodup :=
+  stabilise_delivers_w hw hH U h
+
+/-- what a record on a created or in-use observer is told: the observer is in use afterwards and reads `v`;
+`Initialised v` if the handler was never called, else `Changed v` iff the stored value of the node is not the one from
+before the call, else nothing.  (`v` is computed from the pre-stabilise variables: `WStab.values`.) -/
+theorem expected_live_with_effects {env : Env} {fuel : Nat} {s t2 t3 s' : State} (U : UInvE env s)
+    (X : WStab env fuel s t2 t3 s') {o : Nat} {ob : ObsRec} (h : HandlerRec)
+    (ho : s.observers[o]? = some ob) (hs : ob.state = .created ∨ ob.state = .inUse) :
+    ∃ ob' v, s'.observers[o]? = some ob' ∧ ob'.node = ob.node ∧ ob'.state = .inUse ∧
+      (s'.nodeD ob.node).value = some v ∧ s'.tryGetValue env o = .ok v ∧
+      SubsH.expected s s' o h = (if h.prev = .neverBeenUpdated then some (.initialised v)
+        else if (s.nodeD ob.node).value = some v then none else some (.changed v)) :=
+  expected_live_w U X h ho hs
+
+theorem expected_dead_with_effects {env : Env} {fuel : Nat} {s t2 t3 s' : State} (U : UInvE env s)
+    (X : WStab env fuel s t2 t3 s') {o : Nat} {ob : ObsRec} (h : HandlerRec)
+    (ho : s.observers[o]? = some ob) (hs : ¬ (ob.state = .created ∨ ob.state = .inUse)) :
+    SubsH.expected s s' o h = none :=
+  expected_dead_w U X h ho hs
+
+/-- **S3 / C09 with effects**: along every history of the fragment the updates logged for token `t` are exactly
+`SubsH.specT` -/
+theorem history_notifications_with_effects {env : Env} (hw : WOnly env) (hH : WHandlers env) {N : Nat} {d : Bool}
+    {acts : List Action} {s : State} {tk : Array Nat} (ha : ∀ a, a ∈ acts → WAction env a)
+    (h : runActions env acts (State.init N d) #[] = .ok (s, tk)) (t : Nat) :
+    SubsH.tokLog t s.log = SubsH.specT env t acts (State.init N d) #[] [] :=
+  history_notifications_w hw hH ha h t
+
+theorem history_shape_with_effects {env : Env} (hw : WOnly env) (hH : WHandlers env) {N : Nat} {d : Bool}
+    {acts : List Action} {s : State} {tk : Array Nat} (ha : ∀ a, a ∈ acts → WAction env a)
+    (h : runActions env acts (State.init N d) #[] = .ok (s, tk)) (t : Nat) : SubsH.Shape (SubsH.tokLog t s.log) :=
+  history_shape_w hw hH ha h t
+
 /-! ## non-vacuity -/
 
 /-- `f0` = sum of the integer views; `f2` = first argument, and it sets `v1 := 3`; `f3` = first argument, and it does
@@ -554,5 +613,18 @@ example : readAfter exEnvH (exHistH.take 8) 1 = some (.int 5) ∧
        "inv f0@n3 (2)->2", "inv f1@n2 (2)->2", "notif t0 Changed 2", "note replace v1 -> 5"] :=
   ⟨by decide +kernel, by decide +kernel, by decide +kernel, by decide +kernel, by decide +kernel,
     by decide +kernel, by decide +kernel, by decide +kernel, by decide +kernel⟩
+
+/-- the updates logged for token `t` by the history -/
+def tokLogAfter (env : Env) (acts : List Action) (t : Nat) : Option (List Update) :=
+  match runActions env acts (State.init 128 true) #[] with
+  | .ok (s, _) => some (SubsH.tokLog t s.log)
+  | .error _ => none
+
+set_option maxRecDepth 100000 in
+/-- token 0 receives `Initialised 1`, `Changed 2`, and the specification `specT` computes the same list (as
+`history_notifications_with_effects` proves for every history) -/
+example : tokLogAfter exEnvH exHistH 0 = some [.initialised (.int 1), .changed (.int 2)] ∧
+    SubsH.specT exEnvH 0 exHistH (State.init 128 true) #[] [] = [.initialised (.int 1), .changed (.int 2)] :=
+  ⟨by decide +kernel, by decide +kernel⟩
 
 end IncrVerif.Props.C08History
